@@ -7,6 +7,7 @@ mod mutex;
 mod semaphore;
 mod mpmc;
 mod oneshot;
+mod state;
 
 use crate::core::*;
 use std::io::{BufRead, Write};
@@ -35,6 +36,9 @@ fn make(prim: &str, flavour: &str, cfg: &[u64]) -> Option<Box<dyn Exec>> {
         ("oneshot", "local") => oneshot::make::<Local>(cfg, false),
         ("oneshot", "sync") => oneshot::make::<Sync>(cfg, false),
         ("oneshot", "shared") => oneshot::make::<Sync>(cfg, true),
+        ("state", "local") => Box::new(state::BorrowedState::<Local>::new(cfg)),
+        ("state", "sync") => Box::new(state::BorrowedState::<Sync>::new(cfg)),
+        ("state", "shared") => Box::new(state::SharedState::<Sync>::new(cfg)),
         _ => return None,
     })
 }
